@@ -244,6 +244,8 @@ ATTRS = (
     [Attr('b')]
     + [Attr('b', op, 'v', quoted) for op in OPS for quoted in (False, True)]
     + [Attr('b', prefix='p')]
+    # quoted values that read like selector syntax: inside the quotes nothing counts and nothing ends
+    + [Attr('b', '=', '[', True), Attr('b', '~=', '.c#d, e>f', True)]
 )
 PSEUDO_CLASSES = [PseudoClass('hover'), PseudoClass('nth-child', 'an+b'), PseudoClass('lang', 'en')]
 PSEUDO_ELEMENTS = [PseudoElement('before', 2), PseudoElement('first-line', 1), PseudoElement('selection', 2), PseudoElement('slotted', 2, 'b')]
